@@ -25,6 +25,7 @@ ROOT = os.path.dirname(os.path.dirname(os.path.abspath(__file__)))
 sys.path.insert(0, ROOT)
 PY = os.path.join(ROOT, '.venv', 'bin', 'python')
 NCPU = int(os.environ.get('VERIF_JOBS', os.cpu_count() or 4))
+REPO_PREFIX = (os.environ['VERIF_REPO'] + os.pathsep) if os.environ.get('VERIF_REPO') else ''
 
 
 def log(*a):
@@ -40,7 +41,7 @@ def load_known():
 
 def native(module, harness, split, args, timeout=60, raw=False):
     env = dict(os.environ)
-    env['PYTHONPATH'] = ROOT
+    env['PYTHONPATH'] = REPO_PREFIX + ROOT
     if raw:
         env['VERIF_RAW'] = '1'
     try:
@@ -69,7 +70,7 @@ def run_workers(jobs, workdir, wall_budget):
             of = os.path.join(workdir, f'out_{i}.jsonl')
             json.dump(job, open(jf, 'w'))
             env = dict(os.environ)
-            env['PYTHONPATH'] = ROOT
+            env['PYTHONPATH'] = REPO_PREFIX + ROOT
             env['PYTHONHASHSEED'] = '0'
             ef = open(os.path.join(workdir, f'err_{i}.txt'), 'w')
             p = subprocess.Popen([PY, '-m', 'engine.xh_worker', jf, of], cwd=ROOT, env=env,
